@@ -279,6 +279,7 @@ package jsonschema
 //@   atline[C01] "if schema.MinItems != nil {" mincontok uses stacklen,containsok: isold(schema) && (schema.Contains != nil ==> (schema.MinContains != nil ==> vcount(st, len(stk0) + 1, instance, schema.Contains, rvlen(instance)) >= *schema.MinContains) && (schema.MaxContains != nil ==> vcount(st, len(stk0) + 1, instance, schema.Contains, rvlen(instance)) <= *schema.MaxContains))
 //@   atline[C01] "// objects" cp5 uses samejv,shaped,p_items: okItems(schema, instance)
 //@   atline[C01,C07] "if len(schema.PatternProperties) > 0 {" propsok uses stacklen,propsinv: isold(schema) && isold(schema.Properties) && new(evalProps) && (forall k string {has(schema.Properties, k)} :: has(schema.Properties, k) && rvhas(instance, k) ==> vok(st, len(stk0) + 1, rvget(instance, k), schema.Properties[k]) && has(evalProps, k) && evalProps[k])
+//@   atline[C01,C07] "if schema.AdditionalProperties != nil {" ppok uses stacklen,ppout: len(schema.PatternProperties) > 0 ==> new(evalProps) && isold(schemaInfo) && isold(schemaInfo.patternProperties) && (forall k string, re *regexp.Regexp {rvhas(instance, k), has(schemaInfo.patternProperties, re)} :: rvhas(instance, k) && has(schemaInfo.patternProperties, re) && reMatch(re, k) ==> vok(st, len(stk0) + 1, rvget(instance, k), schemaInfo.patternProperties[re]) && has(evalProps, k) && evalProps[k])
 //@   atline[C01,C07] "anns.noteProperties(evalProps)" addok uses stacklen,fal,addp: schema.AdditionalProperties != nil ==> new(evalProps) && (forall k string {rvhas(instance, k)} :: rvhas(instance, k) ==> has(evalProps, k) && evalProps[k])
 //@   atline[C01] "var min, max int" pnamesok uses stacklen,pnames: isold(schema) && (schema.PropertyNames != nil ==> (forall k string {rvhas(instance, k)} :: rvhas(instance, k) ==> vok(st, len(stk0) + 1, rvof(anyOf(k, "string")), schema.PropertyNames)))
 //@   atline[C01] "if st.rs.draft == draft7 {#3" reqok uses shaped: isold(schema) && isold(schema.Required) && okReq(schema, instance)
@@ -385,6 +386,10 @@ package jsonschema
 //@     invariant[C07] unevif uses anns: new(anns) && newOrNil(anns.evaluatedIndexes) && anns.evaluatedIndexes == pre(anns.evaluatedIndexes) && anns.endIndex == pre(anns.endIndex) && (forall j int {has(anns.evaluatedIndexes, j)} :: (has(anns.evaluatedIndexes, j) && anns.evaluatedIndexes[j]) == pre((has(anns.evaluatedIndexes, j) && anns.evaluatedIndexes[j])))
 //@     invariant[C07] unevi uses stacklen,unevif: isold(schema) && new(anns) && newOrNil(anns.evaluatedIndexes) && anns.endIndex <= i && (forall j int {rvindex(instance, j)} :: anns.endIndex <= j && j < i ==> (has(anns.evaluatedIndexes, j) && anns.evaluatedIndexes[j]) || vok(st, len(stk0) + 1, rvindex(instance, j), schema.UnevaluatedItems))
 //@     exit[C07] unevidone uses stacklen,anns,unevif,unevi: isold(schema) && new(anns) && newOrNil(anns.evaluatedIndexes) && (i >= rvlen(instance) ==> (forall j int {rvindex(instance, j)} :: anns.endIndex <= j && j < rvlen(instance) ==> (has(anns.evaluatedIndexes, j) && anns.evaluatedIndexes[j]) || vok(st, len(stk0) + 1, rvindex(instance, j), schema.UnevaluatedItems)))
+//@   loop "range properties(instance)"
+//@     invariant[C01,C07] ppout uses stacklen,ppin: new(evalProps) && isold(schemaInfo) && isold(schemaInfo.patternProperties) && (forall k string, re *regexp.Regexp {select(visited, k), has(schemaInfo.patternProperties, re)} :: select(visited, k) && has(schemaInfo.patternProperties, re) && reMatch(re, k) ==> vok(st, len(stk0) + 1, rvget(instance, k), schemaInfo.patternProperties[re]) && has(evalProps, k) && evalProps[k])
+//@   loop "range schemaInfo.patternProperties"
+//@     invariant[C01,C07] ppin uses stacklen,ppout: new(evalProps) && isold(schemaInfo) && isold(schemaInfo.patternProperties) && val == rvget(instance, prop) && (forall k string, re *regexp.Regexp {select(outervisited, k), has(schemaInfo.patternProperties, re)} :: select(outervisited, k) && k != prop && has(schemaInfo.patternProperties, re) && reMatch(re, k) ==> vok(st, len(stk0) + 1, rvget(instance, k), schemaInfo.patternProperties[re]) && has(evalProps, k) && evalProps[k]) && (forall re *regexp.Regexp {select(visited, re)} :: select(visited, re) && reMatch(re, prop) ==> vok(st, len(stk0) + 1, rvget(instance, prop), schemaInfo.patternProperties[re]) && has(evalProps, prop) && evalProps[prop])
 //@   loop "range schema.Properties"
 //@     invariant[C01,C07] propsinv uses stacklen: isold(schema) && isold(schema.Properties) && new(evalProps) && (forall k string {select(visited, k)} :: select(visited, k) && rvhas(instance, k) ==> vok(st, len(stk0) + 1, rvget(instance, k), schema.Properties[k]) && has(evalProps, k) && evalProps[k])
 //@   loop "range instance.Len()"
